@@ -199,7 +199,7 @@ def jobs(tier, seed, excluded=()):
         from ..trees import edges
 
         trees = ["T01", "T02", "T03", "T04", "T05", "T06", "T07", "T08", "T09", "T10", "T11", "T12", "T15"] + edges.ids()
-        budget, nparts, tmo = 300, 3, 400
+        budget, nparts, tmo = 80, 3, 200
     odom = Dom(int_max=dom.int_max, str_mode="cand", str_cands=["", "p"], int_cands=["-3"], hex_cands=["0x1f", "zz"], float_cands=["5", "nan"])
     out = []
     for tid in trees:
